@@ -152,7 +152,7 @@ protected:
                 it = lo;
 #ifdef PGM_INDEX_VERIF
                 if (internal::verif::on_route)
-                    internal::verif::on_route(l, verif_lo - segments.begin(), verif_lo - segments.begin(),
+                    internal::verif::on_route(l, verif_lo - segments.begin(), std::next(verif_lo) - segments.begin(),
                                               std::next(lo) - segments.begin());
 #endif
             } else {
